@@ -17,15 +17,14 @@ Hypothesis keq_refl : forall k, keq k k = true.
 Hypothesis keq_sym : forall a b, keq a b = keq b a.
 Hypothesis keq_trans : forall a b c, keq a b = true -> keq b c = true -> keq a c = true.
 Hypothesis hash_compat : forall a b, keq a b = true -> hash a = hash b.
-Hypothesis no_nan : forall k, nanlike k = false.
 
 Notation mkk := (mk key).
 Notation capm := (cap key).
 Notation hs := (hstart key hash).
 Notation cellat := (cellat key).
 Notation matches := (matches key keq).
-Notation getm := (get key keq nanlike hash).
-Notation removem := (remove key keq nanlike hash).
+Notation getm := (get key keq nanlike true hash).
+Notation removem := (remove key keq nanlike true hash).
 Notation insertm := (insert key keq hash he ht).
 Notation growm := (grow key hash he ht).
 Notation grow_tom := (grow_to key hash he ht).
@@ -77,13 +76,13 @@ Qed.
 
 (** a search that gives up proves that no present key matches *)
 Lemma find_none_nomatch : forall m k, tpre m -> reach m -> 0 < capm m ->
-  find_loop key keq nanlike (capm m) m k (hs k (capm m)) (hs k (capm m)) = None ->
+  find_loop key keq (capm m) m k (hs k (capm m)) (hs k (capm m)) = None ->
   forall q, matches k (cellat m q) = false.
 Proof.
   intros m k Hp Hr Hc H q.
   assert (Hs : hs k (capm m) < capm m) by (apply start_of_lt; assumption).
   rewrite <- (off_0 (capm m) (hs k (capm m))) in H at 2 by assumption.
-  destruct (find_loop_none key keq nanlike no_nan (capm m) m k (hs k (capm m)) 0) as [t [_ [Ht1 [Ht2 Ht3]]]]; auto.
+  destruct (find_loop_none key keq (capm m) m k (hs k (capm m)) 0) as [t [_ [Ht1 [Ht2 Ht3]]]]; auto.
   destruct (matches k (cellat m q)) eqn:Eq; auto. exfalso.
   destruct (reach_for m k Hr q Eq) as [d' [Hd' [Hq Hpath]]]. subst q.
   destruct (Nat.lt_ge_cases d' t).
@@ -106,7 +105,7 @@ Proof.
   intros m k i [Hp [Hr Hl]] H. unfold get in H.
   destruct (length (cells m) =? 0); try discriminate.
   rewrite get_loop_find in H.
-  destruct (find_loop key keq nanlike (capm m) m k (hs k (capm m)) (hs k (capm m))) as [p|] eqn:E; try discriminate.
+  destruct (find_loop key keq (capm m) m k (hs k (capm m)) (hs k (capm m))) as [p|] eqn:E; try discriminate.
   simpl in H. inversion H; subst.
   apply find_loop_sound in E; auto. destruct (matches_key _ _ E) as [k' [Hc Hk]].
   exists k'. split; auto. exists p. auto.
@@ -119,7 +118,7 @@ Proof.
   assert (Hlt := cellat_key_lt _ _ _ Hc).
   destruct (Nat.eqb_spec (length (cells m)) 0); try lia.
   rewrite get_loop_find in H.
-  destruct (find_loop key keq nanlike (capm m) m k (hs k (capm m)) (hs k (capm m))) as [q|] eqn:E; try discriminate.
+  destruct (find_loop key keq (capm m) m k (hs k (capm m)) (hs k (capm m))) as [q|] eqn:E; try discriminate.
   assert (Hcap : 0 < capm m) by (rewrite <- (t_len _ Hp); lia).
   assert (Hn := find_none_nomatch m k Hp Hr Hcap E p). rewrite Hc in Hn. exact Hn.
 Qed.
@@ -134,7 +133,7 @@ Lemma remove_spec : forall m k, tinv m ->
      removem m k = (tombed m p, Some (nth p (idx m) 0))).
 Proof.
   intros m k [Hp [Hr Hl]]. unfold remove. rewrite rem_loop_find.
-  destruct (find_loop key keq nanlike (capm m) m k (hs k (capm m)) (hs k (capm m))) as [p|] eqn:E.
+  destruct (find_loop key keq (capm m) m k (hs k (capm m)) (hs k (capm m))) as [p|] eqn:E.
   - right. apply find_loop_sound in E; auto. destruct (matches_key _ _ E) as [k' [Hc Hk]].
     exists p, k'. auto.
   - left. split; auto. intros k' i [p [Hc _]].
@@ -445,7 +444,7 @@ Qed.
 
 (** ---- insert *)
 Lemma v_insert_sim : forall v a k x, R v a ->
-  exists v', v_insert key val keq nanlike hash he ht v k x = Some v' /\ R v' (a_insert key val keq a k x).
+  exists v', v_insert key val keq nanlike true hash he ht v k x = Some v' /\ R v' (a_insert key val keq a k x).
 Proof.
   intros [m rows] a k x HR. assert (HR' := HR). destruct HR' as [Hinv [Hrows [Hlen HB]]]. simpl in *.
   unfold v_insert. rewrite Hrows, map_length, Hlen, Nat.eqb_refl. simpl negb. cbv iota.
@@ -527,7 +526,7 @@ Proof.
 Qed.
 
 Lemma v_remove_sim : forall v a k, R v a ->
-  exists v', v_remove key val keq nanlike hash v k = Some v' /\ R v' (a_remove key val keq a k).
+  exists v', v_remove key val keq nanlike true hash v k = Some v' /\ R v' (a_remove key val keq a k).
 Proof.
   intros [m rows] a k HR. assert (HR' := HR). destruct HR' as [Hinv [Hrows [Hlen HB]]]. simpl in *.
   unfold v_remove. rewrite Hrows, map_length.
@@ -581,7 +580,7 @@ Qed.
 
 (** ---- get / has *)
 Lemma v_get_sim : forall v a k, R v a ->
-  v_get key val keq nanlike hash v k =
+  v_get key val keq nanlike true hash v k =
   match a_get key val keq a k with Some x => GVal x | None => GMissing end.
 Proof.
   intros [m rows] a k HR. assert (HR' := HR). destruct HR' as [Hinv [Hrows [Hlen HB]]]. simpl in *.
@@ -599,7 +598,7 @@ Proof.
 Qed.
 
 Lemma v_has_sim : forall v a k, R v a ->
-  v_has key val keq nanlike hash v k = match a_get key val keq a k with Some _ => true | None => false end.
+  v_has key val keq nanlike true hash v k = match a_get key val keq a k with Some _ => true | None => false end.
 Proof.
   intros [m rows] a k HR. assert (HR' := HR). destruct HR' as [Hinv [Hrows [Hlen HB]]]. simpl in *.
   unfold v_has. rewrite Hrows, map_length.
@@ -614,9 +613,9 @@ Proof.
 Qed.
 
 (** ---- histories *)
-Notation stepm := (step key val keq nanlike hash he ht).
+Notation stepm := (step key val keq nanlike true hash he ht).
 Notation sstepm := (sstep key val keq).
-Notation runm := (run key val keq nanlike hash he ht).
+Notation runm := (run key val keq nanlike true hash he ht).
 Notation srunm := (srun key val keq).
 
 (** operations covered by the proof (un-map: see [abs_of_R]) *)
